@@ -267,6 +267,18 @@ Theorem C19_set_within_capacity : forall max e p it c,
 Proof. exact set_within_capacity. Qed.
 Print Assumptions C19_set_within_capacity.
 
+(** ... and so through whole histories: if every [Set] of every check
+    satisfies that condition on the cache as it is then ([run_fits]; the
+    evaluator computes it on every history of the harness from the recorded
+    evictions), the cache never exceeds the configured size. *)
+Theorem C19_cache_within_size : forall sha pubsuf suffix cache_time max,
+  (0 < max)%Z -> forall ops st,
+  (cache_bytes (snd st) <= max)%Z ->
+  run_fits sha pubsuf suffix cache_time max ops st = true ->
+  Forall (fun r => (cache_bytes (snd (fst r)) <= max)%Z) (run sha pubsuf suffix cache_time ops st).
+Proof. exact run_within_capacity. Qed.
+Print Assumptions C19_cache_within_size.
+
 Example C19_bytes_premises_satisfiable :
   let h1 := Examples.sha Examples.evil in
   let h2 := Examples.sha Examples.twin ++ [] in
@@ -279,6 +291,11 @@ Example C19_bytes_premises_satisfiable :
   Z.of_nat (length (encode_item it1)) = 40%Z /\ decode_item (encode_item it1) = it1 /\
   set_fits 60 ([], true) p2 it2 c = false /\
   set_fits 60 ([p1], true) p2 it2 c = true /\
+  set_fits 100 ([p1], true) p2 it2 c = false /\
   cache_bytes (cset_o ([p1], true) p2 it2 c) = 42%Z /\
-  set_fits 41 ([], false) p2 it2 [] = true /\ set_fits 41 ([], true) p2 it2 [] = false.
+  set_fits 41 ([], false) p2 it2 [] = true /\ set_fits 41 ([], true) p2 it2 [] = false /\
+  run_fits Examples.sha Examples.pubsuf Examples.sfx Examples.ct 45 ops45 (0%Z, []) = true /\
+  map (fun r => (cache_bytes (snd (fst r)), match snd r with Some o => o_sets_left o | None => 9%nat end))
+      (run Examples.sha Examples.pubsuf Examples.sfx Examples.ct ops45 (0%Z, []))
+  = [(10%Z, 0%nat); (42%Z, 0%nat); (42%Z, 0%nat)].
 Proof. exact set_example. Qed.
